@@ -36,6 +36,7 @@ t0=$(date +%s)
 out=$(bin/vcheck -repo $REPO -prop $prop -tier $tier 2>&1); rc_check=$?
 t1=$(date +%s)
 git -C $REPO checkout -- .
+git -C /verif checkout -- evidence 2>/dev/null  # evidence files describe the unchanged tree only
 verdict=$(echo "$out" | grep -E '^(VIOLATION|INCONCLUSIVE|PASS)' | head -4)
 labels=$(echo "$out" | grep -E '^  harness=' | sed 's/  harness=\([^ ]*\) label=\([^ ]*\).*/\1\/\2/' | head -6 | tr '\n' ' ')
 python3 - "$prop" "$name" "$pkgdir" "$rc_apply" "$rc_build" "$rc_suite" "$rc_without" "$rc_with" "$rc_check" "$((t1-t0))" "$labels" "$tier" <<'PY'
